@@ -1184,6 +1184,26 @@ int32_t tls13ParsePreSharedKey(ssl_t *ssl,
                         idBuf.buf.start, identityLen,
                         &psk);
                 if (rc == PS_SUCCESS && psk != NULL &&
+                    psk->isResumptionPsk == PS_TRUE &&
+                    psk->params != NULL &&
+                    psk->params->ticketLifetime > 0)
+                {
+                    /* Do not resume with a ticket that is older than the
+                       ticket_lifetime we issued it with (RFC 8446, 4.6.1). */
+                    psTime_t tnow;
+                    int32 ageMs;
+
+                    psGetTime(&tnow, ssl->userPtr);
+                    ageMs = psDiffMsecs(psk->params->timestamp, tnow,
+                            ssl->userPtr);
+                    if (ageMs < 0 ||
+                        (uint32_t) ageMs / 1000 > psk->params->ticketLifetime)
+                    {
+                        psTraceInfo("Ignoring expired session ticket\n");
+                        psk = NULL;
+                    }
+                }
+                if (rc == PS_SUCCESS && psk != NULL &&
                     tls13GetPskHmacAlg(psk) ==
                         tls13CipherIdToHmacAlg(ssl->cipher->ident))
                 {
